@@ -6,6 +6,8 @@ package onet
 import (
 	"sync/atomic"
 	"time"
+
+	"go.dedis.ch/onet/v3/network"
 )
 
 // Hooks and accessors for the verification harness (build tag "verif").
@@ -105,4 +107,13 @@ func (o *Overlay) VerifTryLocks() []string {
 	try("pendingConfigsMut", o.pendingConfigsMut.Lock, o.pendingConfigsMut.Unlock)
 	try("treeStorage", o.treeStorage.Lock, o.treeStorage.Unlock)
 	return held
+}
+
+// VerifRoutines returns the number of envelopes the server's dispatcher is
+// processing right now.
+func (c *Server) VerifRoutines() int {
+	if d, ok := c.serviceManager.Dispatcher.(*network.RoutineDispatcher); ok {
+		return d.GetRoutines()
+	}
+	return 0
 }
